@@ -164,8 +164,8 @@ def run(ctx, ck) -> None:
 
         want = rz(al) @ ry(be) @ rz(ga)
         ck.expect('Q3', M == want, rot_fn, 'the 3x3 literal equals Rz(phi) Ry(theta) Rz(pa) entry by entry, for all angles (Z-Y-Z Euler convention)',
-                  f'the rotation literal {M} is not Rz(phi) Ry(theta) Rz(pa) = {want}', instance='literal = Rz Ry Rz')
-        ck.expect('Q3', (M.T @ M) == Matrix.identity(['x', 'y', 'z']), rot_fn, 'the literal is orthogonal (M^T M = I)', 'the rotation literal is not orthogonal', instance='literal orthogonal')
+                  f'the rotation literal {M} is not Rz(phi) Ry(theta) Rz(pa) = {want}', instance='literal = Rz Ry Rz', semantic=True)
+        ck.expect('Q3', (M.T @ M) == Matrix.identity(['x', 'y', 'z']), rot_fn, 'the literal is orthogonal (M^T M = I)', 'the rotation literal is not orthogonal', instance='literal orthogonal', semantic=True)
 
     # ------------------------------------------------------------------ Q4 angles
     paths = _ret_env(v2d)
